@@ -662,6 +662,31 @@ func ruleSkipSetKeyComplete(c *Check, rule string, pkgs ...string) {
 								derived = true
 							}
 						}
+						// ... and so is a collection computed from the keyed element itself (its descendants, say)
+						if !derived {
+							all, any := true, false
+							for cs := range dataSources(fn, coll) {
+								if !strings.HasPrefix(cs, "element of ") {
+									continue
+								}
+								any = true
+								ok := keySrc[cs]
+								for k := range keySrc {
+									if strings.HasPrefix(cs, k+".") || cs == k {
+										ok = true
+									}
+									if strings.HasPrefix(k, cs+".") && engine.TypeKey(lk.Index.Type()) == "label.TargetLabel" {
+										ok = true
+									}
+								}
+								if !ok {
+									all = false
+								}
+							}
+							if any && all {
+								derived = true
+							}
+						}
 						if derived {
 							continue
 						}
